@@ -199,3 +199,32 @@ Theorem hash_table_RectGrid : forall v (g : list (list R)),
               | _ => None end) hf_RectGrid
   = hash_key v (OGrid g).
 Proof. exact (@tab_RectGrid R _). Qed.
+
+(* ================================================================ element creation
+   (C20/Element.v: NumpyTensorSpace.element, DiscretizedSpace.element, ProductSpace.element on
+   elements / arrays / nested lists / scalars; tied by the correspondence incl. identity,
+   values, memory sharing and error class). *)
+From Verif Require Import C20.Element C20.ElementProofs.
+
+(* space.element(x) returns x itself when x already belongs to the space *)
+Theorem element_returns_member_itself : forall v (S : obj R) (x : elem R),
+  is_space S = true -> contains v S x = TT -> element v S (IElem x) = RSame.
+Proof. exact (@element_of_member_is_same R _). Qed.
+Print Assumptions element_returns_member_itself.
+
+(* otherwise, unless it raises, the new element holds exactly the values of the input, leaf by
+   leaf and in order -- for tensor, discretized and arbitrarily nested product spaces, and
+   inputs nested accordingly (no bool leaf: conversion is then the identity on the exactly
+   representable inputs the model covers) *)
+Theorem element_holds_input_values : forall v (S : obj R) (i : inp), nobool S = true ->
+  is_err (element v S i) = false -> rvalues (element v S i) i = flat i.
+Proof. exact (@element_values R _). Qed.
+Print Assumptions element_holds_input_values.
+
+(* non-vacuity: a nested weighted product space, a nested list input, a converted result *)
+Example element_example :
+  let r2 := OTensor {| ts_shape := [2%Z]; ts_dtype := DFloat64; ts_w := WConst KNpy 1%R (EFin 2%R) |} in
+  let S := OProd [r2; OProd [r2] (WConst KPs 2%R (EFin 2%R)) FReal] (WConst KPs 1%R (EFin 2%R)) FReal in
+  let i := IList [IList [IScalar 1%R; IScalar 2%R]; IList [IArr 7 DFloat64 [2%Z] [3%R; 4%R]]] in
+  element current_variants S i = RProdE [RTens [1%R; 2%R] None; RProdE [RTens [3%R; 4%R] (Some 7%Z)]].
+Proof. reflexivity. Qed.
